@@ -181,9 +181,12 @@ def build_cases(thorough):
     """Yield (label, sidecar json dict, spec, columns -> alphabet)."""
     menu = dict(kinds_menu(thorough))
     targets = [("cat", "val"), ("val", "cat"), ("HED", "cat"), ("cat", "HED"), ("val", "HED")]
-    alias = {"cat": "ca-t1", "val": "Va_l2", "HED": "HED"}
     refkinds = [k for k in menu if "ref" in k]
-    for rk in refkinds:
+    # column names cover every character class a reference may hold, incl. a name made of digits only
+    for alias in ({"cat": "ca-t1", "val": "Va_l2", "HED": "HED"}, {"cat": "12", "val": "v_", "HED": "HED"}):
+      for rk in refkinds:
+        if alias["cat"] == "12" and not thorough and rk not in ("catref0", "catref2", "catref5", "valref0", "cat2ref0"):
+            continue
         for R, S in targets:
             if "2ref" not in rk and (R, S) in (("cat", "HED"), ("val", "HED")):
                 continue
@@ -202,7 +205,7 @@ def build_cases(thorough):
             if with_hed:
                 spec["HED"] = {"kind": "hed"}
                 alpha["HED"] = ["Yellow", "n/a", "(Yellow, Purple)"]
-            yield f"{rk}:{R}:{S}", sidecar, spec, alpha
+            yield f"{rk}:{R}:{S}" + (":digit-names" if alias["cat"] == "12" else ""), sidecar, spec, alpha
     # reference-free sidecars: every subset of the plain kinds
     plain = ["cat", "val", "ign", "scalar"]
     for r in range(1, len(plain) + 1):
